@@ -11,6 +11,7 @@ package interp
 // depend on it must permute explicitly.)
 
 import (
+	"go/token"
 	"go/types"
 )
 
@@ -27,6 +28,73 @@ type hashmap struct {
 	order   []*entry
 	length  int // number of live entries
 	frozen  bool
+	linear  bool // a symbolic scalar key was used: all entries live in one bucket
+}
+
+// symScalarKey reports whether k is (or wraps) a symbolic integer/boolean.
+func symScalarKey(k value) bool {
+	switch k := k.(type) {
+	case symInt, symBool:
+		return true
+	case iface:
+		return symScalarKey(k.v)
+	case structure:
+		for _, f := range k {
+			if symScalarKey(f) {
+				return true
+			}
+		}
+	}
+	return false
+}
+
+func (m *hashmap) bucket(k value) int {
+	if !m.linear && symScalarKey(k) {
+		// switch to linear mode: equality is decided by the solver
+		m.linear = true
+		m.table = map[int]*entry{}
+		for i := len(m.order) - 1; i >= 0; i-- {
+			e := m.order[i]
+			if !e.deleted {
+				e.next = m.table[0]
+				m.table[0] = e
+			}
+		}
+	}
+	if m.linear {
+		return 0
+	}
+	return hashKey(m.keyType, k)
+}
+
+// scalarEqTerm builds the term "a == b" for map keys of type t.
+func scalarEq(t types.Type, a, b value) bool {
+	switch x := a.(type) {
+	case iface:
+		y := b.(iface)
+		if x.t == nil || y.t == nil || !types.Identical(x.t, y.t) {
+			return x.t == nil && y.t == nil
+		}
+		return scalarEq(x.t, x.v, y.v)
+	case structure:
+		y := b.(structure)
+		st := t.Underlying().(*types.Struct)
+		for i := range x {
+			if !scalarEq(st.Field(i).Type(), x[i], y[i]) {
+				return false
+			}
+		}
+		return true
+	}
+	if isSym(a) || isSym(b) {
+		switch r := binop(token.EQL, t, a, b).(type) {
+		case bool:
+			return r
+		case symBool:
+			return X.decide(r.t)
+		}
+	}
+	return equals(t, a, b)
 }
 
 func hashKey(kt types.Type, k value) int {
@@ -57,6 +125,9 @@ func keyEq(kt types.Type, a, b value) bool {
 		}
 		return X.decide(t)
 	}
+	if symScalarKey(a) || symScalarKey(b) {
+		return scalarEq(kt, a, b)
+	}
 	return equals(kt, a, b)
 }
 
@@ -69,7 +140,7 @@ func (m *hashmap) find(k value) *entry {
 	if m == nil {
 		return nil
 	}
-	h := hashKey(m.keyType, k)
+	h := m.bucket(k)
 	for e := m.table[h]; e != nil; e = e.next {
 		if !e.deleted && keyEq(m.keyType, k, e.key) {
 			return e
@@ -87,7 +158,7 @@ func (m *hashmap) delete(k value) {
 		e.deleted = true
 		m.length--
 		// unlink
-		h := hashKey(m.keyType, k)
+		h := m.bucket(k)
 		if m.table[h] == e {
 			m.table[h] = e.next
 		} else {
@@ -122,7 +193,7 @@ func (m *hashmap) insert(k value, v value) {
 		e.value = v
 		return
 	}
-	h := hashKey(m.keyType, k)
+	h := m.bucket(k)
 	e := &entry{key: k, value: v, next: m.table[h]}
 	m.table[h] = e
 	m.order = append(m.order, e)
